@@ -1,1 +1,108 @@
-//! Exact-on-domain tables for the transcendental functions (DESIGN.md §3.3).
+//! Table stubs for the transcendental functions (DESIGN.md §3.3).
+//!
+//! Kani models `exp`, `ln`, `powf` as unconstrained nondeterministic values, so under
+//! `-Z stubbing` they are replaced - in corgi *and* in the reference model alike - by
+//! functions that return the (correctly rounded) value on the harness's value domain and
+//! are `assume(false)` elsewhere.  Every harness ends in a reachability witness, so a call
+//! outside the table makes the obligation INCONCLUSIVE (vacuous), never a pass.
+//! Natively (replay) the real libm functions are used; these stubs are not compiled in.
+use corgi::numbers::Float;
+
+#[cfg(kani)]
+#[inline(always)]
+fn outside_table() -> Float {
+    kani::assume(false);
+    0.0
+}
+#[cfg(not(kani))]
+fn outside_table() -> Float {
+    panic!("[stub] argument outside the table")
+}
+
+/// e^x for integer x in -4..=4
+pub fn exp(x: Float) -> Float {
+    if x == 0.0 {
+        1.0
+    } else if x == 1.0 {
+        2.718281828459045
+    } else if x == 2.0 {
+        7.38905609893065
+    } else if x == 3.0 {
+        20.085536923187668
+    } else if x == 4.0 {
+        54.598150033144236
+    } else if x == -1.0 {
+        0.36787944117144233
+    } else if x == -2.0 {
+        0.1353352832366127
+    } else if x == -3.0 {
+        0.049787068367863944
+    } else if x == -4.0 {
+        0.01831563888873418
+    } else {
+        outside_table()
+    }
+}
+
+/// ln x for x in {1, 2, 3, 4, 1/2, 1/4, 8}
+pub fn ln(x: Float) -> Float {
+    if x == 1.0 {
+        0.0
+    } else if x == 2.0 {
+        0.6931471805599453
+    } else if x == 3.0 {
+        1.0986122886681098
+    } else if x == 4.0 {
+        1.3862943611198906
+    } else if x == 8.0 {
+        2.0794415416798357
+    } else if x == 0.5 {
+        -0.6931471805599453
+    } else if x == 0.25 {
+        -1.3862943611198906
+    } else {
+        outside_table()
+    }
+}
+
+/// x^e for integer e in -3..=3 (by repeated multiplication - exact whenever the result is
+/// representable, in particular on small integers and powers of two) and e = ±0.5 on
+/// {0, 1, 4, 1/4, 16}
+pub fn powf(x: Float, e: Float) -> Float {
+    if e == 0.0 {
+        1.0
+    } else if e == 1.0 {
+        x
+    } else if e == 2.0 {
+        x * x
+    } else if e == 3.0 {
+        x * x * x
+    } else if e == -1.0 {
+        1.0 / x
+    } else if e == -2.0 {
+        1.0 / (x * x)
+    } else if e == -3.0 {
+        1.0 / (x * x * x)
+    } else if e == 0.5 || e == -0.5 {
+        let r = if x == 0.0 {
+            0.0
+        } else if x == 1.0 {
+            1.0
+        } else if x == 4.0 {
+            2.0
+        } else if x == 16.0 {
+            4.0
+        } else if x == 0.25 {
+            0.5
+        } else {
+            return outside_table();
+        };
+        if e == 0.5 {
+            r
+        } else {
+            1.0 / r
+        }
+    } else {
+        outside_table()
+    }
+}
